@@ -36,7 +36,7 @@ META = {
                 "calc_current_orthog_center / count_canonized (numerical detector using allclose): a record is always supplied",
                 "cyclic MPS", "truncating calls", "equalize_norms=True in the sub-MPO gate (rescales the isometric tensors; reported separately)",
                 "sub-MPO gate compression methods other than direct / dm / zipup (zipup-first raises on a sub-region; sdc / src* / fit are randomised or iterative)",
-                "CircuitMPS.local_expectation(..., dtype=...) / convert_eager=False (canonicalises a private copy; not exercised)", "random sampling statistics (outcomes are fixed / enumerated)",
+                "CircuitMPS(convert_eager=False) (dtype= queries ARE exercised by circuit_copy_independence_numeric)", "random sampling statistics (outcomes are fixed / enumerated)",
                 "complex entries in the history / canonicalize_window families (real symbols there; complex states and operators are symbolic in the consumer family, L = 3, kind=cplx cells)"],
     "assumptions": ["LAPACK qr/svd return factors meeting their contracts (stubs); QR stub has positive diagonal",
                     "singular values strictly positive (generic full-rank state)"],
@@ -679,6 +679,16 @@ def _circ_check(mk, circ, v, N, tag, mps):
         mk.eq(f"[numeric-only] {tag}: local_expectation(O, {s}) == <psi|O|psi>", circ.local_expectation(O, s), want, tol=1e-8)
     if mps:
         check_record(mk, circ._psi, circ.gate_opts["info"], f"[numeric-only] {tag}: gate_opts['info'] after the queries")
+        # query options that make the simulator work on a converted COPY of its state (dtype=...): the answer is the same and the
+        # record keeps describing the state the object holds (third round: it used to receive the copy's centre - fixed)
+        for s in (0, N - 1, N // 2):
+            want = np.vdot(v, np.asarray(ref.embed(O, [2] * N, (s,)), dtype=complex) @ v)
+            mk.eq(f"[numeric-only] {tag}: local_expectation(O, {s}, dtype='complex128') == <psi|O|psi>",
+                  circ.local_expectation(O, s, dtype="complex128"), want, tol=1e-8)
+            check_record(mk, circ._psi, circ.gate_opts["info"], f"[numeric-only] {tag}: gate_opts['info'] after a dtype= query on {s}")
+            s2 = (s + 1) % N
+            want2 = np.vdot(v, np.asarray(ref.embed(O, [2] * N, (s2,)), dtype=complex) @ v)
+            mk.eq(f"[numeric-only] {tag}: plain local_expectation(O, {s2}) after the dtype= query == <psi|O|psi>", circ.local_expectation(O, s2), want2, tol=1e-8)
 
 
 @obligation(PROP, params=[{"sim": "CircuitMPS", "N": 4, "_tiers": _Q}, {"sim": "CircuitMPS", "N": 5, "_tiers": _T},
